@@ -2,6 +2,7 @@ package main
 
 import (
 	"fmt"
+	"strings"
 
 	corev1 "k8s.io/api/core/v1"
 	metav1 "k8s.io/apimachinery/pkg/apis/meta/v1"
@@ -56,6 +57,19 @@ func catalogPods() []PodCase {
 			add(l.name+".caps.add", func(p *corev1.Pod) { l.sc(p).Capabilities.Add = []corev1.Capability{corev1.Capability(cp)} })
 			add(l.name+".caps.drop", func(p *corev1.Pod) { l.sc(p).Capabilities.Drop = []corev1.Capability{corev1.Capability(cp)} })
 		}
+		// the same capability added AND dropped by one container (drop keeps ALL, so only the add can matter), and dropped by
+		// the neighbouring list entry only: the two fields are separate inputs of separate controls
+		for _, cp := range capUniverse {
+			cp := cp
+			add(l.name+".caps.add+drop", func(p *corev1.Pod) {
+				l.sc(p).Capabilities.Add = []corev1.Capability{corev1.Capability(cp)}
+				l.sc(p).Capabilities.Drop = []corev1.Capability{"ALL", corev1.Capability(cp)}
+			})
+		}
+		add(l.name+".caps.add+drop.two", func(p *corev1.Pod) {
+			l.sc(p).Capabilities.Add = []corev1.Capability{"NET_BIND_SERVICE", "SYS_ADMIN", "NET_RAW"}
+			l.sc(p).Capabilities.Drop = []corev1.Capability{"SYS_ADMIN", "ALL", "NET_RAW"}
+		})
 		add(l.name+".caps=nil", func(p *corev1.Pod) { l.sc(p).Capabilities = nil })
 		add(l.name+".caps.drop=[]", func(p *corev1.Pod) { l.sc(p).Capabilities.Drop = nil })
 		add(l.name+".sc=nil", func(p *corev1.Pod) {
@@ -353,6 +367,22 @@ func catalogPods() []PodCase {
 			p.Name = fmt.Sprintf("cat-%d", len(out))
 			out = append(out, PodCase{Pod: p, Base: "catalog", Atoms: []string{"cross." + a.name, "cross." + b.name}, FewMinors: true})
 		}
+	}
+	// long messages: many containers with 63-byte names, every one violating four restricted controls — the aggregate detail runs
+	// to several KiB (4 KiB, 8 KiB and 64 KiB are the sizes buffers and pools are tuned around); the ordinary pods that follow in
+	// the catalogue are the "next message"
+	for _, n := range []int{14, 30, 60, 250} {
+		n := n
+		add(fmt.Sprintf("longMessage.%d", n), func(p *corev1.Pod) {
+			p.Spec.InitContainers, p.Spec.EphemeralContainers = nil, nil
+			p.Spec.Containers = nil
+			for i := 0; i < n; i++ {
+				name := fmt.Sprintf("c%03d-", i) + strings.Repeat("x", 58)
+				p.Spec.Containers = append(p.Spec.Containers, corev1.Container{Name: name, Image: "img", SecurityContext: &corev1.SecurityContext{
+					Privileged: bp(true), Capabilities: &corev1.Capabilities{Add: []corev1.Capability{"SYS_ADMIN"}}, SeccompProfile: &corev1.SeccompProfile{Type: "Unconfined"}}})
+			}
+		})
+		add("longMessage.next", func(p *corev1.Pod) { p.Spec.Containers[0].SecurityContext.Privileged = bp(true) })
 	}
 	// wide pods: 16 to 40 containers spread over the three kinds, with two to four controls violated on some of them — the
 	// listing of controls must not depend on how many containers a pod has
